@@ -182,7 +182,71 @@ func run[V any](r *engine.Rec, c *cfg[V]) {
 							prevRes[op], prevDump[op], prevCase[op] = again, common.View(again), pc
 						}
 					}
-					// later changes to the result do not affect the operands and vice versa
+					// later changes to the result do not affect the operands and vice versa: each kind of change as the
+					// FIRST change after the operation (a copy-on-write scheme is undone by whichever mutator forgets it)
+					{
+						L := col.List[V](common.N())
+						mutators := map[string]func(s col.SetLike[V]){
+							"AddValue":     func(s col.SetLike[V]) { s.AddValue(c.universe[0]); s.AddValue(c.universe[n-1]) },
+							"RemoveValue":  func(s col.SetLike[V]) { s.RemoveValue(c.universe[0]); s.RemoveValue(c.universe[n-1]) },
+							"AddValues":    func(s col.SetLike[V]) { s.AddValues(L.MakeFromArray(append([]V(nil), c.universe...))) },
+							"RemoveValues": func(s col.SetLike[V]) { s.RemoveValues(L.MakeFromArray(append([]V(nil), c.universe...))) },
+							"RemoveAll":    func(s col.SetLike[V]) { s.RemoveAll() },
+						}
+						compute := func(X, Y col.SetLike[V]) (out col.SetLike[V]) {
+							rt.Protect(4000000, func() {
+								switch op {
+								case "And":
+									out = S.And(X, Y)
+								case "Or":
+									out = S.Or(X, Y)
+								case "Sans":
+									out = S.Sans(X, Y)
+								case "Xor":
+									out = S.Xor(X, Y)
+								}
+							})
+							return
+						}
+						bad := false
+						for mn, mut := range mutators {
+							for _, target := range []string{"result", "first operand", "second operand"} {
+								A2, B2 := mk(a), mkWith(b, true)
+								if alias {
+									B2 = A2
+								}
+								res2 := compute(A2, B2)
+								if res2 == nil {
+									continue
+								}
+								va, vb, vr := common.View(A2), common.View(B2), common.View(res2)
+								switch target {
+								case "result":
+									rt.Protect(1000000, func() { mut(res2) })
+									if common.View(A2) != va || common.View(B2) != vb {
+										r.Violation("changing the result of "+op+" changes an operand ("+mn+" first)", fmt.Sprintf("%+v", pc), pc)
+										bad = true
+									}
+								case "first operand":
+									rt.Protect(1000000, func() { mut(A2) })
+									if common.View(res2) != vr {
+										r.Violation("changing an operand changes the result of "+op+" ("+mn+" first)", fmt.Sprintf("%+v", pc), pc)
+										bad = true
+									}
+								case "second operand":
+									rt.Protect(1000000, func() { mut(B2) })
+									if common.View(res2) != vr {
+										r.Violation("changing an operand changes the result of "+op+" ("+mn+" first)", fmt.Sprintf("%+v", pc), pc)
+										bad = true
+									}
+								}
+								r.Evals++
+							}
+						}
+						if bad {
+							continue
+						}
+					}
 					for i, v := range c.universe {
 						rt.Protect(1000000, func() {
 							if i%2 == 0 {
